@@ -248,9 +248,10 @@ mutual
           | .gfor names values body =>
             let (vs', a) := mapS (visitExpr n) values s2
             if sc then
-              let a1 := P.push a
-              let (names1, a2) := mapS (tnameInsert P.insert) names a1
-              let (names2, a3) := mapS (tnameTy (visitTy n)) names1 a2
+              -- annotations first, in the enclosing scope (fix of F09b), then push + insert
+              let (names1, a1) := mapS (tnameTy (visitTy n)) names a
+              let a2 := P.push a1
+              let (names2, a3) := mapS (tnameInsert P.insert) names1 a2
               let ((b1, _), a4) := P.scope body none a3
               let (b2, a5) := visitBlock n true b1 a4
               (.gfor names2 vs' b2, P.pop a5)
@@ -294,9 +295,19 @@ mutual
             else (.localAssign kind names' vs', b)
           | .localFn kind name body =>
             if sc then
-              let (name', a) := P.insertLocalFn name s2
-              let (body', b) := visitFnBody n false body a
-              (.localFn kind name' body', b)
+              -- signature annotations first, in the enclosing scope; then the function name; then the
+              -- parameters and the body in a new scope (fix of F09b)
+              match body with
+              | .mk params variadic varTy ret generics attrs blk =>
+                let (params1, a1) := mapS (tnameTy (visitTy n)) params s2
+                let (varTy', a2) := optS (visitTy n) varTy a1
+                let (ret', a3) := optS (visitTy n) ret a2
+                let (name', a4) := P.insertLocalFn name a3
+                let a5 := P.push a4
+                let (params2, a6) := mapS (tnameInsert P.insert) params1 a5
+                let ((body1, _), a7) := P.scope blk none a6
+                let (body2, a8) := visitBlock n true body1 a7
+                (.localFn kind name' (.mk params2 variadic varTy' ret' generics attrs body2), P.pop a8)
             else
               let (body', a) := visitFnBody n false body s2
               (.localFn kind name body', a)
@@ -321,12 +332,23 @@ mutual
           | .typeFn ex name body =>
             match body with
             | .mk params variadic varTy ret generics attrs blk =>
-              let ((b1, _), a1) := P.scope blk none s2
-              let (b2, a2) := visitBlock n true b1 a1
-              let (params', a3) := mapS (tnameTy (visitTy n)) params a2
-              let (varTy', a4) := optS (visitTy n) varTy a3
-              let (ret', a5) := optS (visitTy n) ret a4
-              (.typeFn ex name (.mk params' variadic varTy' ret' generics attrs b2), a5)
+              if sc then
+                -- scope visitors declare the parameters (fix of F09c)
+                let (params1, a1) := mapS (tnameTy (visitTy n)) params s2
+                let (varTy', a2) := optS (visitTy n) varTy a1
+                let (ret', a3) := optS (visitTy n) ret a2
+                let a4 := P.push a3
+                let (params2, a5) := mapS (tnameInsert P.insert) params1 a4
+                let ((b1, _), a6) := P.scope blk none a5
+                let (b2, a7) := visitBlock n true b1 a6
+                (.typeFn ex name (.mk params2 variadic varTy' ret' generics attrs b2), P.pop a7)
+              else
+                let ((b1, _), a1) := P.scope blk none s2
+                let (b2, a2) := visitBlock n true b1 a1
+                let (params', a3) := mapS (tnameTy (visitTy n)) params a2
+                let (varTy', a4) := optS (visitTy n) varTy a3
+                let (ret', a5) := optS (visitTy n) ret a4
+                (.typeFn ex name (.mk params' variadic varTy' ret' generics attrs b2), a5)
           | other => (other, s2)
         P.afterStmtNode st3 s3
 
